@@ -25,12 +25,16 @@ type CheckFn func(w *W)
 
 // Check describes one registered check.
 type Check struct {
-	ID       string // property id, e.g. C14
-	Level    string // evidence level
-	Rule     string // how cases are enumerated / what makes one non-trivial
-	Assume   []string
-	Fn       CheckFn
-	Workers  int // 0 = all cores
+	ID      string // property id, e.g. C14
+	Level   string // evidence level
+	Rule    string // how cases are enumerated / what makes one non-trivial
+	Assume  []string
+	Fn      CheckFn
+	Workers int // 0 = all cores
+	// Rounds > 1 makes the parent run the workers several times; the named sets merged
+	// from round r are handed to every worker of round r+1 (W.Prev). This is how an
+	// explicit-state search exchanges newly reached states between processes.
+	Rounds   func(tier string) int
 	Watchdog time.Duration
 }
 
@@ -42,6 +46,7 @@ type FailGroup struct {
 	Detail    string   `json:"detail,omitempty"`
 	FirstIdx  int64    `json:"first_idx"`
 	Shard     int      `json:"shard"`
+	Round     int      `json:"round"`
 }
 
 type Report struct {
@@ -73,6 +78,8 @@ type W struct {
 	Shard, N int
 	Seed     int64
 	Thorough bool
+	Round    int                 // current round (0-based)
+	Prev     map[string][]string // merged named sets of the previous round
 
 	resume   int64
 	only     int64
@@ -146,7 +153,7 @@ func (w *W) Fail(class, sig, witness, detail string) { w.FailAt(w.idx-1, class, 
 func (w *W) FailAt(idx int64, class, sig, witness, detail string) {
 	g := w.rep.Fails[sig]
 	if g == nil {
-		g = &FailGroup{Sig: sig, Class: class, Detail: detail, FirstIdx: idx, Shard: w.Shard}
+		g = &FailGroup{Sig: sig, Class: class, Detail: detail, FirstIdx: idx, Shard: w.Shard, Round: w.Round}
 		w.rep.Fails[sig] = g
 	}
 	g.N++
@@ -174,7 +181,7 @@ func (w *W) Note(set, s string) {
 		m = map[string]bool{}
 		w.sets[set] = m
 	}
-	if len(m) < 20000 {
+	if len(m) < 200000 {
 		m[s] = true
 	}
 }
